@@ -78,7 +78,7 @@ func (fr *frame) runDefer(d *deferred) {
 
 func isEnginePanic(r interface{}) bool {
 	switch r.(type) {
-	case cut, pathEnd, exitPanic, unwindOverflow, abortRun:
+	case cut, pathEnd, exitPanic, unwindOverflow, abortRun, goroutineKilled:
 		return true
 	}
 	return false
